@@ -189,6 +189,8 @@ type bench struct {
 	lastSnap atomic.Value       // rpc.VerifConnState
 	extra    func() interface{} // case-specific part of the replay input
 
+	preEpilogue [nOpKinds]int // transport operations started before the epilogue (Close)
+
 	closeOnce  sync.Once
 	closeErrs  []string
 	vmu        sync.Mutex
